@@ -46,6 +46,7 @@ type Ctx struct {
 	extra      map[string]any
 
 	violations []violation
+	replaysWritten int
 	vioSeen    map[string]int
 	knownHits  map[string]int
 	knownWhat  map[string]string
@@ -181,7 +182,7 @@ func (c *Ctx) Violation(class, caseID, what string, detail any) {
 	c.mu.Lock()
 	defer c.mu.Unlock()
 	c.vioSeen[class]++
-	if c.vioSeen[class] > 3 || len(c.violations) >= 40 {
+	if c.vioSeen[class] > 2 || c.replaysWritten >= 150 {
 		c.violations = append(c.violations, violation{What: what})
 		return
 	}
@@ -195,6 +196,7 @@ func (c *Ctx) Violation(class, caseID, what string, detail any) {
 	os.MkdirAll(dir, 0o755)
 	path := filepath.Join(dir, fmt.Sprintf("%s-%s.json", c.Prop, hex.EncodeToString(h[:6])))
 	os.WriteFile(path, b, 0o644)
+	c.replaysWritten++
 	c.violations = append(c.violations, violation{What: what, Replay: path})
 }
 
